@@ -60,6 +60,15 @@ OnSegment(p, a, b) ==
 OnPolygon(p, V) == \E i \in 1..Len(V) : OnSegment(p, V[i], V[NextIdx(V, i)])
 InPolygon(p, V) == Cardinality({ i \in 1..Len(V) : Crosses(p, V[i], V[NextIdx(V, i)]) }) % 2 = 1
 
+\* ---------- radius defaulting of the ellipsoid (Sphere.radius, radius_x/_y/_z) ----------
+\* `rad` is the default radius, given[a] the per-axis radius or 0 when it is omitted: r_a = given[a] if given else rad.
+\* variant "z_from_y" is a deliberately wrong rule (the omitted z radius falls back to the EFFECTIVE y radius).
+EffRadii(rad, given, variant) ==
+    LET rx == IF given[1] # 0 THEN given[1] ELSE rad
+        ry == IF given[2] # 0 THEN given[2] ELSE rad
+        rz == IF given[3] # 0 THEN given[3] ELSE IF variant = "z_from_y" THEN ry ELSE rad
+    IN << rx, ry, rz >>
+
 \* ---------- shapes ----------
 \* sh = [ kind |-> "ell" | "cyl" | "poly", q |-> <<qx,qy,qz>>, axis |-> 1..3, poly |-> << <<h,v>>, ... >> ]
 \* d = sample point minus shape centre (3-sequence, quarter units).  cyl/poly ignore the component along
